@@ -10,6 +10,7 @@ mod c11;
 mod crash;
 mod c12;
 mod c15;
+mod c16;
 mod cluster;
 mod c17;
 mod c20;
@@ -22,7 +23,7 @@ fn main() {
         eprintln!("usage: nunverif <property|selftest> <quick|thorough> [args]");
         std::process::exit(64);
     }
-    if !["load-probe", "C12-child", "crash-child", "c16-child"].contains(&args[1].as_str()) {
+    if !["load-probe", "C12-child", "crash-child", "c16-child", "c16-load"].contains(&args[1].as_str()) {
         common::init_default_dir();
     }
     let tier = args.get(2).map(|s| s.as_str()).unwrap_or("quick");
@@ -48,6 +49,9 @@ fn run(args: &[String], tier: &str) -> i32 {
         "C12" => c12::run(tier),
         "C12-child" => c12::child(&args),
         "C15" => c15::run(tier),
+        "C16" => c16::run(tier),
+        "c16-child" => c16::child(args),
+        "c16-load" => c16::load_child(args),
         "C17" => c17::run(tier),
         "C20" => c20::run(tier),
         "load-probe" => c06::load_probe_child(&args[3]),
